@@ -16,9 +16,9 @@ fn v(i: i64) -> Val {
 
 /// deterministic probes: one per maintenance path, including every path that was found broken
 fn probes() -> Vec<(&'static str, Case)> {
-    let s2 = Schema { int_col: vec![true, true], pk: true, uniques: vec![] };
-    let s3u = Schema { int_col: vec![true, true, false], pk: true, uniques: vec![1] };
-    let s_nopk = Schema { int_col: vec![true, true], pk: false, uniques: vec![] };
+    let s2 = Schema { kinds: vec![], int_col: vec![true, true], pk: true, uniques: vec![] };
+    let s3u = Schema { kinds: vec![], int_col: vec![true, true, false], pk: true, uniques: vec![1] };
+    let s_nopk = Schema { kinds: vec![], int_col: vec![true, true], pk: false, uniques: vec![] };
     let base = |extra: Vec<Stmt>| -> Vec<Stmt> {
         let mut v0 = vec![
             Stmt::CreateIndex("qv".into(), vec![1], false),
